@@ -226,3 +226,83 @@ theorem splitLines_lines (ls : List Bytes) (h : ∀ l ∈ ls, IsLine l) :
     rw [splitLines_of_line body hb, this]
 
 end ClairModel.Framing
+
+namespace ClairModel.Framing
+
+variable {σ α : Type}
+
+/-! ### records -/
+
+theorem dropWs_length (d : Bytes) : (dropWs d).length ≤ d.length := by
+  induction d with
+  | nil => simp [dropWs]
+  | cons b bs ih =>
+    simp only [dropWs]
+    split
+    · simp only [List.length_cons]; omega
+    · simp
+
+theorem dropWs_take (d : Bytes) (k : Nat) : ∃ k', dropWs (d.take k) = (dropWs d).take k' := by
+  induction d generalizing k with
+  | nil => exact ⟨0, by simp [dropWs]⟩
+  | cons b bs ih =>
+    cases k with
+    | zero => exact ⟨0, by simp [dropWs]⟩
+    | succ k =>
+      simp only [List.take_succ_cons, dropWs]
+      by_cases hb : isWs b = true
+      · simp only [hb, if_true]; exact ih k
+      · simp only [hb, if_false, Bool.false_eq_true]
+        exact ⟨k + 1, by simp⟩
+
+/-- The complete values of a prefix are a prefix of the complete values. -/
+theorem splitValues_take (step : σ → Byte → Step σ) (init : σ) (f' : Nat) :
+    ∀ (f : Nat) (d : Bytes) (k : Nat), d.length < f → (d.take k).length < f' →
+      ∃ more, (splitValues step init f d).1 = (splitValues step init f' (d.take k)).1 ++ more := by
+  induction f' with
+  | zero => intro f d k _ h; omega
+  | succ f' ih =>
+    intro f d k hf hf'
+    cases f with
+    | zero => omega
+    | succ g =>
+      obtain ⟨k', hk'⟩ := dropWs_take d k
+      have hl := dropWs_length d
+      have hl' := dropWs_length (d.take k)
+      simp only [splitValues]
+      rw [hk']
+      cases hr : dropWs d with
+      | nil => simp
+      | cons b rest =>
+        cases k' with
+        | zero => simp
+        | succ k'' =>
+          simp only [List.take_succ_cons]
+          have hscan := scanFrom_take step init 0 (b :: rest) (k'' + 1)
+          simp only [List.take_succ_cons] at hscan
+          rw [hscan]
+          cases hw : scanFrom step init 0 (b :: rest) with
+          | incomplete => simp [cutVerdict]
+          | invalid m =>
+            simp only [cutVerdict, Nat.zero_add]
+            by_cases hm : m ≤ k'' + 1 <;> simp [hm]
+          | complete n =>
+            have hb := scanFrom_complete_bounds step init 0 _ n hw
+            simp only [cutVerdict, Nat.zero_add]
+            by_cases hn : n ≤ k'' + 1
+            · rw [if_pos hn]
+              simp only
+              have htk : (b :: rest.take k'') = (b :: rest).take (k'' + 1) := by simp
+              rw [htk, List.take_take, Nat.min_eq_left hn, List.drop_take]
+              have h1 : (b :: rest).length ≤ d.length := by rw [← hr]; exact hl
+              have h2 : ((b :: rest).take (k'' + 1)).length ≤ (d.take k).length := by
+                rw [← hr, ← hk']; exact hl'
+              have h3 : ((b :: rest).take (k'' + 1)).length = min (k'' + 1) (b :: rest).length :=
+                List.length_take
+              obtain ⟨more, hm⟩ := ih g ((b :: rest).drop n) (k'' + 1 - n)
+                (by simp only [List.length_drop]; omega)
+                (by rw [← List.drop_take]; simp only [List.length_drop]; omega)
+              exact ⟨more, by rw [hm]; simp⟩
+            · rw [if_neg hn]; simp
+
+end ClairModel.Framing
